@@ -61,7 +61,11 @@ def session_dead(w, sid):
 def run_post_case(impl, case, out):
     """case: dict(L, n, declared, kind, chunks, poll)"""
     L, n, declared = case['L'], case['n'], case['declared']
-    w = peer.make_world(impl, server_kwargs=dict(max_http_buffer_size=L, ping_interval=2, ping_timeout=1))
+    if case.get('positional'):
+        # the limit is the third option after async_mode: Server('threading', 2, 1, L)
+        w = peer.make_world(impl, server_kwargs=dict(_positional=(2, 1, L)))
+    else:
+        w = peer.make_world(impl, server_kwargs=dict(max_http_buffer_size=L, ping_interval=2, ping_timeout=1))
     try:
         sid = peer.sid_of(peer.open_polling(w))
         if sid is None and L < 120:
@@ -367,6 +371,9 @@ def jobs_for(ctx):
                             for poll in (True,) if ctx.quick else (True, False):
                                 jobs.append(('post', impl, {'L': L, 'n': n, 'declared': declared, 'kind': kind,
                                                             'chunks': chunks, 'poll': poll}))
+                    if L in (5, 100) and declared == n:
+                        jobs.append(('post', impl, {'L': L, 'n': n, 'declared': declared, 'kind': 'text', 'chunks': 'one', 'poll': True,
+                                                    'positional': True}))
         for k in range(0, 19):
             jobs.append(('count', impl, k))
             if k >= 1:
